@@ -127,7 +127,7 @@ def run(F, R, ctx):
                 if b["on"] == "usize" and (b["place"] in lens or lens & lib.alias_sources(fn, b["place"])):
                     guards.append(i)  # match args.len() { 1 => .., 2 => .. }
         for i, b in fn.calls():
-            if re.search(r"slice::\{impl \[T\]\}::(split_first|split_first_mut|split_last|split_last_mut|first|first_mut|get|get_mut)$", b["callee"]) \
+            if re.search(r"slice::\{impl \[T\]\}::(split_first|split_first_mut|split_last|split_last_mut|first|first_mut|last|get|get_mut|is_empty|split_at_checked|first_chunk)$", b["callee"]) \
                     and arg in lib.alias_sources(fn, b["args"][0]):
                 guards.append(i)
         dom = fn.dominators()
